@@ -305,7 +305,7 @@ def work(rep, args):
     if quick:
         consts = dict(Ns=edgeN, Ms=edgeN, NsWide=[65], MsFew=[0, 40], MsNoEtag=[40], styles=['"a"', '"s"'])
     else:
-        consts = dict(Ns=allN, Ms=allN, NsWide=[0, 20, 70, 130], MsFew=[0, 10, 40, 100], MsNoEtag=[40, 100], styles=['"a"', '"s"', '"as"', '"sa"'])
+        consts = dict(Ns=allN, Ms=allN, NsWide=[0, 70, 130], MsFew=[0, 40, 100], MsNoEtag=[40], styles=['"a"', '"s"', '"as"', '"sa"'])
     with tlc.Workdir() as wd:
         def mc():
             cfg = "BlockClient_mc.cfg"
@@ -318,7 +318,7 @@ def work(rep, args):
         nsim = 300 if quick else 4000
 
         def sim():
-            return tlc.run(wd, "BlockClient.tla", "BlockClient_sim.cfg", workers=1, timeout=900,
+            return tlc.run(wd, "BlockClient.tla", "BlockClient_sim.cfg", workers=1, timeout=900 if quick else 2400,
                            simulate="file=%s/tr,num=%d" % (simdir, nsim), depth=80, seed=args.seed + 1)
 
         with ThreadPoolExecutor(2) as ex:
